@@ -83,8 +83,8 @@ fn dir() -> BoxedStrategy<Dir> {
 fn case_strategy(tier: Tier) -> BoxedStrategy<Case> {
     let max = tier.pick(6, 8);
     (
-        // one tree in sixty is large (more entries than any internal batch size)
-        prop_oneof![60 => prop::collection::vec(dir(), 0..=max), 1 => prop::collection::vec(dir(), 130..300)],
+        // one tree in 250 (thorough: 60) is large (more entries than any internal batch size)
+        prop_oneof![tier.pick(250, 60) => prop::collection::vec(dir(), 0..=max), 1 => prop::collection::vec(dir(), 130..300)],
         prop::collection::vec(prop::sample::select(vec!["pkgdb.byfile.db", "stray-1.0", "README", "+COMMENT", "foo-9.9"]).prop_map(String::from), 0..3),
     )
         .prop_map(|(dirs, stray_files)| {
